@@ -215,8 +215,8 @@ class C09(Prop):
     assumptions = ('bitwise comparison is meaningful because the test functions use only + - * / sqrt',
                    'thread schedules are stressed (barrier + tiny switch interval), not controlled: the '
                    'thread part is exploration at a weaker level than the history part')
-    constants = {'thread_repetitions': {'quick': 20, 'thorough': 200}}
-    examples = {'quick': 60, 'thorough': 2500}
+    constants = {'thread_repetitions': {'quick': 20, 'thorough': 100}}
+    examples = {'quick': 60, 'thorough': 500}
 
     def strategy(self, tier):
         return st.one_of(history_case(), history_case(), history_case(), thread_case())
